@@ -251,6 +251,19 @@ def gen_script(rng, logic=None, incremental=False, options=(), produce_models=Tr
             if j < 0.7:
                 return "(distinct (h %d) %s (h %s))" % (c, x, rng.choice(g.numvars))
             return "(and (not (= (h %s) %s)) (<= %d %s))" % (rng.choice(g.numvars), x, c, x)
+        if g.num == "Int" and g.divmod and not g.dl and rng.random() < 0.35:
+            # several div/mod applications over ONE dividend with divisors n and -n (and another n): the elimination shares
+            # auxiliary variables between them
+            x = rng.choice(g.numvars)
+            d = x if rng.random() < 0.6 else g.nterm(1)
+            n = rng.choice([2, 3, 4, 5, 7])
+            a, b = rng.choice(["div", "mod"]), rng.choice(["div", "div", "mod"])
+            j = rng.random()
+            if j < 0.4:
+                return "(and (= (%s %s %d) %d) (= (%s %s (- %d)) %s))" % (a, d, n, rng.randint(-2, 3), b, d, n, g.const())
+            if j < 0.7:
+                return "(%s (+ (div %s %d) (div %s (- %d))) %s)" % (rng.choice(["=", "<=", "distinct"]), d, n, d, n, g.const())
+            return "(and (%s (%s %s %d) (%s %s (- %d))) (not (= %s 0)))" % (rng.choice(["=", "<", "distinct"]), a, d, n, b, d, n, x)
         if g.usort and g.ufuns and rng.random() < 0.2:
             # a distinct whose arguments are already members (not representatives) of merged classes when it is asserted, followed by
             # an equality that merges two of its arguments (unsat) or an argument with an outsider (sat); compound terms only, so
